@@ -412,6 +412,37 @@ fn explore(ctx: &mut Ctx) {
         classify(ctx, &c);
         run_case(&c)
     });
+    // dense bytes: short needles (1..=4 bytes) over all 256 byte values
+    let dense = (proptest::collection::vec(any::<u8>(), 0..24), proptest::collection::vec(any::<u8>(), 1..5), any::<bool>());
+    ctx.prop("find_dense", n, dense, |ctx, v| {
+        let c = dense_case(v);
+        ctx.label("random_dense");
+        classify(ctx, &c);
+        run_case(&c)
+    });
+    // and exhaustively: every 2-byte needle (x, y) with x, y in a 32-value spread set against haystacks made of two
+    // other such pairs followed by the needle
+    let spread: Vec<u8> = (0..32u32).map(|i| (i * 8 + i / 4) as u8).collect();
+    for (i, &x) in spread.iter().enumerate() {
+        for (j, &y) in spread.iter().enumerate() {
+            let (p, q) = (spread[(i * 7 + j + 1) % 32], spread[(j * 5 + i + 3) % 32]);
+            for hay in [vec![p, q, x, y], vec![q, p, q, x, y, p], vec![p, p, q, q]] {
+                eval(ctx, &hay, &[x, y]);
+            }
+        }
+    }
+    ctx.exhaustive_part("all 2-byte needles over a 32-value spread of byte values (step ~8) x 3 haystacks of other spread pairs");
+}
+
+/// dense random case: arbitrary byte values (matchers that compare sums / hashes / checksums instead of bytes only
+/// go wrong when many distinct byte values are present), needle planted at the end when `plant`
+pub fn dense_case((h, n, plant): &(Vec<u8>, Vec<u8>, bool)) -> Case {
+    let mut hay = h.clone();
+    if *plant {
+        hay.extend_from_slice(n);
+        hay.push(h.first().copied().unwrap_or(0));
+    }
+    Case { hay, needle: n.clone() }
 }
 
 /// random case: haystack = random symbols with the needle (or a near-miss prefix of it) planted
